@@ -427,9 +427,23 @@ pub fn rand07(m: &mut M, r: &mut Rng, n: u64) {
 pub fn spell(m: &mut M, r: &mut Rng, n: u64) {
     for i in 0..n {
         m.group("spell");
-        let scen = r.below(8);
+        let scen = r.below(10);
         let (emin, emax) = if scen == 0 { (-1000, 1000) } else { (-300, 300) };
-        load_valid(m, r, 0, emin, emax);
+        if scen >= 8 {
+            // extreme operands: subnormal / least-normal high words (low word necessarily zero), or the top binades
+            let h = match r.below(4) {
+                0 => f64::from_bits(r.below(64) + 1),
+                1 => f64::from_bits(r.next() & ((1u64 << 52) - 1)),
+                2 => r.f64_in(-1022, -1015).abs(),
+                _ => r.f64_in(1015, 1023).abs(),
+            } * if r.coin() { 1.0 } else { -1.0 };
+            let l = if h.abs() >= f64::MIN_POSITIVE { lo_candidate(r, h) } else { 0.0 };
+            if !m.load(0, h, l) {
+                m.load(0, h, 0.0);
+            }
+        } else {
+            load_valid(m, r, 0, emin, emax);
+        }
         match scen {
             1 => {
                 let x = m.tf(0);
@@ -449,8 +463,8 @@ pub fn spell(m: &mut M, r: &mut Rng, n: u64) {
             let (op1, a1, b1) = *r.pick(&[("new_add", f64::INFINITY, 1.0), ("new_mul", 1e300, 1e300), ("new_sub", f64::MAX, -f64::MAX), ("new_div", 1.0, 0.0)]);
             m.call("arith", op1, "inh", Some(1), &[A::F(a1), A::F(b1)]);
         }
-        let fz = *r.pick(&[0.0, -0.0, 1.0, -1.0, 3.0]);
-        let f = if r.below(4) == 0 { fz } else { r.f64_in(emin.max(-300), emax.min(300)) };
+        let fz = *r.pick(&[0.0, -0.0, 1.0, -1.0, 3.0, 1.5, 0.75, 2.5, f64::INFINITY, f64::NEG_INFINITY]);
+        let f = if r.below(4) == 0 { fz } else if scen >= 8 { r.f64_in(-3, 3) } else { r.f64_in(emin.max(-300), emax.min(300)) };
         m.call("arith", "neg", "v", Some(2), &[A::R(0)]);
         m.call("arith", "neg", "r", Some(2), &[A::R(0)]);
         m.call("arith", "neg", "v", Some(3), &[A::R(1)]);
